@@ -13,9 +13,12 @@
     a dangling pointer, wrapper storage released with a live payload.  A failed check sets
     `err` (first failure wins).  `Props/C16.lean` proves that `err` is never set and that the
     structural invariant holds after every operation sequence.
-  * The operation bodies are sequences of these primitives in the order of the C++ statements;
-    `expected*` below records that order per control-flow path, and `Props.C16.shape_*` decides
-    that it equals the table regenerated from the C++ (`Gen.C16.*`).
+  * The operation bodies below (`opMoveAssign`, `opCopyAssign`, …, collected in `stepH`) are
+    *hand-staged* sequences of these primitives: the form the invariant proofs work on.  The
+    model the driver runs is `step` of `Model/C16Exec.lean` — an interpreter of the programs
+    regenerated from the C++ (`Gen.C16.*P`); `Proofs.C16.step_eq_stepH` proves that both agree
+    on every state and operation.  `expected*` below additionally records the action order per
+    control-flow path, and `Props.C16.shape_*` decides that it equals the regenerated tables.
 
   Core Lean only (the driver links this file).
 -/
@@ -44,7 +47,7 @@ structure Wrapper where
   alloc : Nat
   vtTy : Nat            -- `vtable.type` (0 = `void`); survives a move-from, as in the C++
   bufObj : Option Obj   -- ghost: the object living in this wrapper's small buffer
-  deriving Repr
+  deriving DecidableEq, Repr
 
 structure Block where
   alloc : Nat            -- allocator (id) that allocated it
@@ -119,10 +122,12 @@ def setObj (s : State) (l : Loc) (o : Option Obj) : State :=
   | .blk b => { s with blk := upd s.blk b { s.blk b with obj := o } }
   | .env k => { s with env := upd s.env k o }
 
+/-- storage a wrapper may construct a payload in: its small buffer or a live heap block — never
+    the environment's storage (a wrapper does not own what it merely references) -/
 def usable (s : State) : Loc → Bool
   | .buf i => (s.wr i).isSome
   | .blk b => (s.blk b).live
-  | .env _ => true
+  | .env _ => false
 
 /-- placement-new of a fresh object at `l` -/
 def constructAt (s : State) (l : Loc) (val ty : Nat) (ev : Nat → Ev) : State :=
@@ -412,7 +417,11 @@ def opAccess (s : State) (gs : List Guard) (i ty : Nat) : State × Out :=
     | .val id v => (d.1, .val id v)
     | o => (s, o)
 
-def step (s : State) : Op → State × Out
+/-- The operations with the *hand-staged* bodies above (`opMoveAssign`, …): the form the invariant
+    proofs work on.  The model the driver runs is `step` of `Model/C16Exec.lean`, which executes the
+    regenerated programs `Gen.C16.*P`; `Proofs.C16.step_eq_stepH` proves that the two agree on every
+    state and operation. -/
+def stepH (s : State) : Op → State × Out
   | .newDefault i a => if free s i then (newW s i a 0, .ok) else (s, .badOp)
   | .newInPlace i a ty val thr => if free s i then opNewInPlace s i a ty val thr else (s, .badOp)
   | .newCopyEnv i a k thr => if free s i then opNewCopyEnv s i a k thr else (s, .badOp)
@@ -434,10 +443,6 @@ def step (s : State) : Op → State × Out
   | .asConst i ty => if has s i then opAccess s asConst i ty else (s, .badOp)
   | .getPtr i => if has s i then opAccess s getPointer i (getW s i).vtTy else (s, .badOp)
 
-def run (s : State) : List Op → State
-  | [] => s
-  | o :: r => run (step s o).1 r
-
 /-- Fresh pool: no wrappers, two environment objects (ids 0 and 1: a small and a large one). -/
 def initState (cfg : Cfg) (tyS tyL : Nat) : State :=
   { cfg := cfg, wr := fun _ => none, blk := fun _ => deadBlock, nblk := 0,
@@ -445,17 +450,6 @@ def initState (cfg : Cfg) (tyS tyL : Nat) : State :=
     nextId := 2, ccnt := (fun id => if id < 2 then 1 else 0), dcnt := fun _ => 0,
     where_ := fun id => if id = 0 then some (.env 0) else if id = 1 then some (.env 1) else none,
     err := none, log := [] }
-
-/-- destroy every wrapper of the pool (slots `n-1 … 0`) -/
-def delAll (s : State) : Nat → State
-  | 0 => s
-  | n + 1 => delAll (if has s n then (opDel s n).1 else s) n
-
-/-- end of a sequence: all wrappers go, then the environment's objects -/
-def finish (s : State) : State :=
-  let s := delAll s s.cfg.npool
-  let s := if (s.env 1).isSome then destroyAt s (.env 1) else s
-  if (s.env 0).isSome then destroyAt s (.env 0) else s
 
 def countIf (n : Nat) (p : Nat → Bool) : Nat := ((List.range n).filter p).length
 
